@@ -5,7 +5,8 @@ CONSTANTS
   Outs = {3}
   GW = 0
   Far = 4
-  ReqHosts = {"", "h1"}
+  ReqHosts = {"", "g2", "bad"}
+  BadHosts = {"bad"}
   StaticHosts = {"", "h1"}
   MaxStatic = 1
   LeaseT = 1
